@@ -10,7 +10,9 @@ EXPRS = ['1', '2 3 +', '10 3 -', '2 3 * 4 +', '1 2', '1 2 3', '[ 1 2 ]', '[ ]', 
          ': f 2 ; : g 3 ; f g *', ': a 1 ; : b 2 ; : c 3 ; a b c + +', ': h1 10 ; h1 const SIX : h2 SIX 1 + ; h2',
          ': a 1 ; 6 const SIX : b SIX ; : c b a + ; c', '6 const SIX 2 const TWO : m SIX TWO * ; : n m m + ; n',
          ': a 1 ; : b 2 ; 6 const SIX : c 3 ; : d 4 ; 2 const TWO a b c d + + +', ': f 1 ; : f 2 ; : f 3 ; f']
-SEAL = ['vv', 'drop', '1 ! vv', '5 var inner', 'swap', 'dup']
+SEAL = ['vv', 'drop', '1 ! vv', '5 var inner', 'swap', 'dup', 'rdv', 'wrv', 'rdv 1 +', 'rdv print', '1 if rdv then', 'true if wrv then', ': q rdv ; q',
+        '[ rdv ]', 'rdv drop 5']
+SEAL_HELPERS = ' : rdv vv ; : wrv 1 ! vv ;'
 PRE = ['', '1', '100 200', '"x"', '7 var vv', '7 var vv vv', '[ 1 ]']
 POST = ['', '1 +', 'dup', 'depth', 'drop', '2', 'print']
 
@@ -91,9 +93,13 @@ class C11(XsProp):
         # sealing: the block cannot see or change the surroundings
         for i in range(n // 5):
             e = rng.choice(SEAL)
-            pre = rng.choice(['7 var vv 1 2', '7 var vv', '7 var vv 9'])
-            cs.append('xs limits 6000 - - | eval %s | clone | eval %s | stack | var 7676 | use 1 | stack | var 7676'
-                      % (hexsrc(pre), hexsrc('#( %s #)' % e)))
+            pre = rng.choice(['7 var vv%s 1 2', '7 var vv%s', '7 var vv%s 9']) % SEAL_HELPERS
+            case = ('xs limits 6000 - - | eval %s | clone | eval %s | stack | var 7676 | use 1 | stack | var 7676'
+                    % (hexsrc(pre), hexsrc('#( %s #)' % e)))
+            cs.append(case)
+            if not hasattr(self, 'must_fail'):
+                self.must_fail = set()
+            self.must_fail.add(case)      # every SEAL expression touches the surroundings: the block must be refused
         # what a block prints / leaves must not depend on what is on the surrounding stack
         for e in ['.s', 'depth print', 'depth', '1 2 + print', '.s 1', 'depth .s']:
             for (x, y) in [('9', '8'), ('1 2 3', '"a"'), ('', '[ 1 ]')]:
@@ -203,7 +209,10 @@ class C11(XsProp):
                 iu = st.index('use 1')
                 blockres, stack_a, var_a = ou[iu - 3], ou[iu - 2], ou[iu - 1]
                 stack_b, var_b = ou[iu + 1], ou[iu + 2]
-                if var_a != var_b or (blockres != 'ok' and stack_a != stack_b) or \
+                if c in getattr(self, 'must_fail', ()) and blockres == 'ok':
+                    fails.append(('case: %s\nsources: %s\nresult: %s' % (c, src_of(c), o[:800]),
+                                  'a meta block that reads or writes its surroundings (directly or through an outer word) was accepted'))
+                elif var_a != var_b or (blockres != 'ok' and stack_a != stack_b) or \
                         (blockres == 'ok' and not stack_a.startswith(stack_b[:-2])):
                     fails.append(('case: %s\nsources: %s\nresult: %s' % (c, src_of(c), o[:800]), 'a meta block saw or changed its surroundings'))
             elif st[-2].startswith('compile'):
